@@ -1,0 +1,34 @@
+//go:build verif
+
+package result
+
+// Thin exported accessor used by the out-of-tree verification harness (property C14).
+// No behaviour of its own.
+
+import (
+	beaconchain "github.com/keep-network/keep-core/pkg/beacon/chain"
+	"github.com/keep-network/keep-core/pkg/chain"
+	"github.com/keep-network/keep-core/pkg/net"
+	"github.com/keep-network/keep-core/pkg/protocol/state"
+)
+
+// VerifC14InitialState returns the first state of the result publication protocol, exactly as
+// Publish builds it. The harness walks the chain of states through Next() to read the
+// DelayBlocks / ActiveBlocks of every state.
+func VerifC14InitialState(
+	channel net.BroadcastChannel,
+	beaconChain beaconchain.Interface,
+	blockCounter chain.BlockCounter,
+	member *SigningMember,
+	startBlockHeight uint64,
+) state.SyncState {
+	return &resultSigningState{
+		channel:                 channel,
+		beaconChain:             beaconChain,
+		blockCounter:            blockCounter,
+		member:                  member,
+		result:                  nil,
+		signatureMessages:       make([]*DKGResultHashSignatureMessage, 0),
+		signingStartBlockHeight: startBlockHeight,
+	}
+}
